@@ -320,6 +320,37 @@ def _key_sites(funcs) -> list[tuple[str, list[str]]]:
     return out
 
 
+def _clear_after(funcs) -> str:
+    """VTF.clear_mipmaps: the comparison `<mipmap level> OP after` that guards frame.clear(), as a VtfLayout cmp"""
+    from translate.c15_pixel import CMP, NEG, FLIP
+    fn = next((f for q, f in funcs if q == 'VTF.clear_mipmaps'), None)
+    if fn is None:
+        raise TranslateError('vtf.py: VTF.clear_mipmaps not found')
+    if 'after' not in [a.arg for a in fn.args.args + fn.args.kwonlyargs]:
+        _err(fn, 'clear_mipmaps: parameter `after` not found')
+    found = []
+    for st in ast.walk(fn):
+        if isinstance(st, ast.If) and any(isinstance(c, ast.Call) and isinstance(c.func, ast.Attribute) and c.func.attr == 'clear' for b in st.body for c in ast.walk(b)):
+            test, neg = st.test, False
+            while isinstance(test, ast.UnaryOp) and isinstance(test.op, ast.Not):
+                test, neg = test.operand, not neg
+            if st.orelse or not (isinstance(test, ast.Compare) and len(test.ops) == 1 and type(test.ops[0]) in CMP):
+                _err(st, f'clear_mipmaps: guard of clear() not understood: {ast.unparse(st.test)}')
+            a, b = test.left, test.comparators[0]
+            c = CMP[type(test.ops[0])]
+            if neg:
+                c = NEG[c]
+            if isinstance(b, ast.Name) and b.id == 'after' and _krole(a, fn, 2) == 'KMip':
+                found.append(c)
+            elif isinstance(a, ast.Name) and a.id == 'after' and _krole(b, fn, 2) == 'KMip':
+                found.append(FLIP[c])
+            else:
+                _err(st, f'clear_mipmaps: guard of clear() does not compare the level with `after`: {ast.unparse(st.test)}')
+    if len(found) != 1:
+        _err(fn, f'clear_mipmaps: {len(found)} guarded clear() calls')
+    return found[0]
+
+
 def access_info() -> dict:
     tree = c15_norm.normalised_tree(src_text('vtf.py'))
     sigs, ppm_header = _rw_signatures()
@@ -531,7 +562,7 @@ def access_info() -> dict:
             guards.append((f'{qual}: copy from {q}', atoms))
 
     paths += _pair_sites(funcs)
-    return {'keys': _key_sites(funcs), 'paths': paths, 'allocs': allocs, 'guards': guards, 'census': sorted(set(census)), 'ppm_header': list(ppm_header)}
+    return {'clear_after': _clear_after(funcs), 'keys': _key_sites(funcs), 'paths': paths, 'allocs': allocs, 'guards': guards, 'census': sorted(set(census)), 'ppm_header': list(ppm_header)}
 
 
 def _cs(s: str) -> str:
@@ -541,7 +572,7 @@ def _cs(s: str) -> str:
 def translate_access() -> tuple[str, dict]:
     info = access_info()
     L = ['(* GENERATED by translate/c15_access.py from src/srctools/vtf.py and _py_vtf_readwrite.py. Do not edit. *)',
-         'From Coq Require Import ZArith List Bool String.', 'From SV Require Import Fmt.VtfAccess.', 'Import ListNotations.',
+         'From Coq Require Import ZArith List Bool String.', 'From SV Require Import Fmt.VtfLayout Fmt.VtfAccess.', 'Import ListNotations.',
          'Open Scope Z_scope.', 'Open Scope string_scope.', '',
          '(* every site that hands a frame\'s pixel array to something with an idea of rows and columns *)',
          'Definition gen_paths : list pathdesc := [']
@@ -555,6 +586,8 @@ def translate_access() -> tuple[str, dict]:
     L.append('Definition gen_copy_guards : list (string * list gatom) := [')
     L.append(';\n'.join(f'  ({_cs(n)}, [{"; ".join(f"({a}, {b})" for a, b in atoms)}])' for n, atoms in info['guards']))
     L.append('].')
+    L.append('(* VTF.clear_mipmaps: frame.clear() is guarded by `<level> OP after` *)')
+    L.append(f'Definition gen_clear_after : cmp := {info["clear_after"]}.')
     L.append('(* every site that addresses the frame table with a key: the role of each element *)')
     L.append('Definition gen_key_sites : list (string * list krole) := [')
     L.append(';\n'.join(f'  ({_cs(n)}, [{"; ".join(rs)}])' for n, rs in info['keys']))
